@@ -153,7 +153,15 @@ class Cid(object):
         assert base_class is not None
         result = {}
         # NOTE: we use a ``set`` of subclasses to ignore duplicates.
-        for class_to_process in set(base_class.__subclasses__()):
+        subclasses = set()
+        classes_to_visit = [base_class]
+        while classes_to_visit:
+            # Also find classes that do not directly inherit from ``base_class``.
+            for subclass in classes_to_visit.pop().__subclasses__():
+                if subclass not in subclasses:
+                    subclasses.add(subclass)
+                    classes_to_visit.append(subclass)
+        for class_to_process in subclasses:
             qualified_class_name = class_to_process.__name__
             plain_class_name = qualified_class_name.split(".")[-1]
             clashing_class = result.get(plain_class_name)
